@@ -37,7 +37,7 @@ OnotCorner(P, L) ==
     \E it \in InsNodes(P) :
         /\ \E k \in DOMAIN it.kids : HasKind(it.kids[k], {"onot"})
         /\ \E n \in DOMAIN L : L[n].ops = <<>> /\ NameHolds(it.name, L[n].mn, FALSE)
-InScope(P, L) == ~Nullable(P) /\ CapsOnSpine(P) /\ ~OnotCorner(P, L)
+InScope(P, L) == ~Nullable(P) /\ (CapsOnSpine(P) \/ SoundScope(P)) /\ ~OnotCorner(P, L)
 
 \* the first failing clause, or "ok:F" / "ok:N" (found / not found)
 Check(c) ==
@@ -61,6 +61,15 @@ Check(c) ==
              fst == Pairs(c.first)
          IN
          IF ~S!Genuine(sp, all) THEN "rej:Genuine"
+         \* a capture first bound inside a $not: the semantics is only a necessary condition (JasmPattern!SoundScope)
+         ELSE IF ~CapsOnSpine(P) THEN
+              (IF ~SoundScope(P) THEN "skip:OutOfScope"
+               ELSE IF ~S!Disjoint(all) \/ ~S!Increasing(all) THEN "rej:C11_Order"
+               ELSE IF fst # SubSeq(all, 1, IF all = <<>> THEN 0 ELSE 1) THEN "rej:C12_FirstPrefix"
+               ELSE IF c.all_addr # [a \in DOMAIN all |-> L[all[a][1]].addr] THEN "rej:C07_Addr"
+               ELSE IF c.first_addr # [a \in DOMAIN fst |-> L[fst[a][1]].addr] THEN "rej:C12_AddrFirst"
+               ELSE IF \E b \in DOMAIN c.bools : c.bools[b] # (all # <<>>) THEN "rej:C12_Bool"
+               ELSE IF all # <<>> THEN "ok:sound:F" ELSE "ok:sound:N")
          ELSE IF (all = <<>>) # (sp = {}) THEN "rej:Verdict"
          ELSE IF ~S!ValidScanAll(sp, n, all) THEN "rej:C11_Scan"
          ELSE IF ~S!ValidScanFirst(sp, n, fst) THEN "rej:C11_First"
